@@ -63,7 +63,26 @@ namespace
         QPDFObjectHandle node(bool root, QPDFObjectHandle* lo, QPDFObjectHandle* hi)
         {
             auto d = QPDFObjectHandle::newDictionary();
+            // explicit form (the dump syntax): <lo~hi|_> then [..] or (..): /Limits exactly as written
+            bool explicit_lim = false;
+            QPDFObjectHandle xlo, xhi;
+            if (s.at(i) != 'L' && s.at(i) != 'I') {
+                explicit_lim = true;
+                if (s.at(i) == '_') {
+                    ++i;
+                } else {
+                    size_t e = s.find('~', i);
+                    xlo = parse_key(c, s.substr(i, e - i), true);
+                    size_t f = s.find_first_of("[(", e);
+                    xhi = parse_key(c, s.substr(e + 1, f - e - 1), true);
+                    i = f;
+                }
+                --i; // re-read the bracket as the node type
+            }
             char t = s.at(i++);
+            if (explicit_lim) {
+                t = (s.at(i) == '[') ? 'L' : 'I';
+            }
             QPDFObjectHandle first, last;
             if (t == 'L') {
                 if (s.at(i++) != '[') throw std::runtime_error("init syntax");
@@ -97,7 +116,14 @@ namespace
             } else {
                 throw std::runtime_error("init syntax");
             }
-            if (!root && first && last) {
+            if (explicit_lim) {
+                if (xlo) {
+                    auto lim = QPDFObjectHandle::newArray();
+                    lim.appendItem(xlo);
+                    lim.appendItem(xhi);
+                    d.replaceKey("/Limits", lim);
+                }
+            } else if (!root && first && last) {
                 auto lim = QPDFObjectHandle::newArray();
                 lim.appendItem(first);
                 lim.appendItem(last);
@@ -271,4 +297,28 @@ static Reg r_nn("nn", [](std::vector<std::string> const& a) -> std::string {
         });
     }
     return run<QPDFNumberTreeObjectHelper>(c, t, a.at(2), a.at(3), every, [](std::string const& s) { return std::stoll(s); });
+});
+
+// nnrepair <num|name> <tree in dump syntax, possibly damaged> : validate(true) -> V<0|1>[w<n>]@<dump>
+static Reg r_nnrepair("nnrepair", [](std::vector<std::string> const& a) -> std::string {
+    Ctx c;
+    c.names = a.at(0) == "name";
+    c.q.emptyPDF();
+    c.q.setSuppressWarnings(true);
+    P p{c, a.at(1)};
+    auto root = c.q.makeIndirectObject(p.node(true, nullptr, nullptr));
+    bool ok;
+    if (c.names) {
+        QPDFNameTreeObjectHelper t(root, c.q);
+        ok = t.validate(true);
+    } else {
+        QPDFNumberTreeObjectHelper t(root, c.q);
+        ok = t.validate(true);
+    }
+    std::string out = ok ? "V1" : "V0";
+    auto w = c.q.getWarnings();
+    if (!w.empty()) out += "w" + std::to_string(w.size());
+    out += "@";
+    dump(c, root, out, 0);
+    return out;
 });
